@@ -439,8 +439,28 @@ def rule_param_objects(ctx):
     ctx.require(n >= 12, 'C20.pure', f'only {n} methods of parameter objects analysed')
 
 
+MEMO = ('lru_cache', 'cache', 'cached_property', 'functools.lru_cache', 'functools.cache', 'functools.cached_property')
+
+
+def rule_memo(ctx, rid='C20.pure'):
+    ctx.rule(rid, 'nothing on the build path is memoised across builds: no function or method of sc3.synth carries a caching decorator '
+                  '(a cache keyed by a function or parameter object keeps the first answer although defaults, annotations and fields of '
+                  'that object can change between builds: same arguments, different bytes)')
+    n = 0
+    for fi in sorted(ctx.repo.functions.values(), key=lambda f: f.fq):
+        if not fi.module.name.startswith('sc3.synth'):
+            continue
+        n += 1
+        memo = [d for d in fi.decorators if d.split('(')[0] in MEMO]
+        ctx.ob(rid, f'{fi.fq}:not-memoised', not memo,
+               f'{fi.qualname} is decorated with {memo}: its result for an object is frozen at first use and survives into later builds',
+               fi.node, fi.module, nontrivial=bool(memo))
+    ctx.require(n >= 1200, rid, f'only {n} functions of sc3.synth analysed')
+
+
 def run(ctx):
     rule_args(ctx)
+    rule_memo(ctx)
     rule_param_objects(ctx)
     rule_file(ctx)
     from . import c03
@@ -454,6 +474,8 @@ def run(ctx):
 
 
 MUTANTS = [
+    dict(rule='C20.pure', name='signature of the graph function memoised per function object (seed C04-j)', file='sc3/synth/synthdef.py',
+         old="class MetaSynthDef(type):\n", new="import functools\n\n\n@functools.lru_cache(maxsize=1024)\ndef _signature(func):\n    return inspect.signature(func)\n\n\nclass MetaSynthDef(type):\n"),
     dict(rule='C20.ctx', name='(fix reverted) metadata dumped into the open file after the old one was removed', file='sc3/synth/synthdesc.py',
          old="        if data is not None:\n            with open(path, 'w') as file:\n                file.write(data)\n",
          new="        if synthdef.metadata:\n            with open(path, 'w') as file:\n                json.dump(metadata, file)\n"),
